@@ -66,12 +66,20 @@ def ids_of(res):
     return sorted(i._vid for dc in res.values() for i in dc.individuals)
 
 
+# One filter object serves every row (a filter instance outlives a tree: module-level mechanisms, hms() loops); a
+# filter that remembers anything about the previous tree answers wrongly for the next one.
+SHARED_SKIP = SkipSameSprout()
+
+
 def main(table_path, out_path):
     viol, n_eval, distinct, samples = [], 0, 0, {}
     nontrivial = 0
 
+    percl = {}
+
     def bad(clause, sig, det):
-        if len(viol) < 600:
+        percl[clause] = percl.get(clause, 0) + 1
+        if percl[clause] <= 150:
             viol.append({"clause": clause, "signature": sig, "detail": det})
 
     for line in open(table_path):
@@ -122,7 +130,7 @@ def main(table_path, out_path):
                             f"cands={[(x['par'], x['rank']) for x in c['cands']]}")
                     clause = "C10_LevelLimit"
                 elif fam == "skipsame":
-                    flt = SkipSameSprout()
+                    flt = SHARED_SKIP if distinct % 2 else SkipSameSprout()
                     for s in c["seeds"]:
                         ch = FakeDeme(f"k{len(lvl2)}", 2, True,
                                       seed=Individual(np.array([s["pos"][0] * scale, s["pos"][1] * scale]), PROB[maximize], 1.0))
@@ -132,7 +140,7 @@ def main(table_path, out_path):
                     clause = "C10_SkipSameSprout"
                 elif fam == "skipsame3":
                     # parents on two levels: root (children A, B with their own sprout seeds) and A (children on level 2)
-                    flt = SkipSameSprout()
+                    flt = SHARED_SKIP if distinct % 2 else SkipSameSprout()
 
                     def seed_ind(pos):
                         return Individual(np.array([pos[0] * scale, pos[1] * scale]), PROB[maximize], 1.0)
